@@ -71,6 +71,8 @@ def registered_rules():
             continue
         for key, disp in getattr(reg, "registry", {}).items():
             for sig, fn in getattr(disp, "funcs", {}).items():
+                if type(fn).__name__ == "PartialDefault":
+                    continue
                 out.add((interp.__name__, _rule_name(fn)))
     return out
 
